@@ -294,7 +294,7 @@ def run(chk):
                 "Guard (single policy and set, cold and cached) with the built-in checker and with sync/async custom "
                 "checkers giving negative, positive and raising verdicts. non-trivial = a permit with obligations judged "
                 "by the model; distinct = distinct case")
-    chk.assumptions = ["decimal strings longer than CPython's int-conversion limit (4300 digits) are not generated",
+    chk.assumptions = ["CPython's int/str conversion limit is the default 4300 digits (sys.get_int_max_str_digits()); the model treats longer digit strings as a conversion failure, exercised at 4300 / 4301 digits",
                        "non-ASCII strings passed to int() are outside the model (ood)"]
     cases = corpus_cases() + gen_direct(chk) + engine_cases(chk)
     check_cases(chk, cases)
